@@ -1,6 +1,7 @@
 package main
 
 import (
+	"strings"
 	"bytes"
 	"math/big"
 
@@ -33,8 +34,12 @@ func variants(a J, n int) []cty.Value {
 	seen := [][]byte{}
 	for rep := 0; rep < n; rep++ {
 		v := Concretize(a, rep)
-		// keep variants that differ physically (number precision / mantissa / sign of zero)
+		// keep variants that differ physically (number precision / mantissa / sign of zero) or that were
+		// built from a different input spelling of a string that has a non-normalized form
 		key := physKey(v)
+		if ak := jsonKey(a); rep%2 == 1 && (strings.Contains(ak, "eacute") || strings.Contains(ak, "omega") || strings.Contains(ak, "hangul")) {
+			key = append(key, 'd')
+		}
 		dup := false
 		for _, s := range seen {
 			if bytes.Equal(s, key) {
@@ -90,18 +95,23 @@ func driveEqLaws(c *Ctx) error {
 		switch asS(j["k"]) {
 		case "group":
 			var vals []cty.Value
+			src := []any{} // which abstract value each physical value was built from
 			maxN := 64
-			for _, a := range asL(j["vals"]) {
+			for ai, a := range asL(j["vals"]) {
 				vs := variants(asJ(a), nrep)
 				if !(len(vs) > 0 && vs[0].Type() == cty.Number) && len(vs) > 2 {
 					vs = vs[:2]
 				}
 				vals = append(vals, vs...)
+				for range vs {
+					src = append(src, ai)
+				}
 			}
 			if len(vals) > maxN {
 				// keep a seeded selection, always retaining neighbours (variants of one value)
 				start := c.Rng.Intn(len(vals) - maxN + 1)
 				vals = vals[start : start+maxN]
+				src = src[start : start+maxN]
 			}
 			n := len(vals)
 			raw := make([]any, n)
@@ -136,7 +146,7 @@ func driveEqLaws(c *Ctx) error {
 				}
 				raw[i], eq[i], hash[i], lt[i], gt[i], sb[i] = r, e, h, l, g, b0
 			}
-			c.Out.Emit(J{"ev": "eqgroup", "vals": projectArgs(vals), "raw": raw, "eq": eq, "hash": hash, "lt": lt, "gt": gt, "sb": sb})
+			c.Out.Emit(J{"ev": "eqgroup", "vals": projectArgs(vals), "raw": raw, "eq": eq, "hash": hash, "lt": lt, "gt": gt, "sb": sb, "src": src})
 		case "setperm":
 			in := asL(j["input"])
 			seen := map[string]bool{}
@@ -147,7 +157,7 @@ func driveEqLaws(c *Ctx) error {
 					// mix representations within one input list
 					for i := range vals {
 						if i%2 == 1 {
-							vals[i] = Concretize(asJ(in[i]), 2)
+							vals[i] = Concretize(asJ(in[i]), 3)
 						}
 					}
 				}
